@@ -164,7 +164,7 @@ func cliCases(t *testing.T, pid, sub string) {
 			}
 			return cs
 		}
-		c := opCLICase{Sub: sub, Cues: ms(genCues(rt, 1, 6, maxT, []string{"a", "b", "a|b"})), Ext: rapid.SampledFrom([]string{"srt", "vtt", "ttml"}).Draw(rt, "ext")}
+		c := opCLICase{Sub: sub, Cues: ms(genCues(rt, 1, 6, maxT, []string{"a", "b", "a|b"})), Ext: rapid.SampledFrom([]string{"srt", "vtt", "ttml", "SRT", "Ttml", "VTT"}).Draw(rt, "ext")}
 		var maxEnd int64 = nsMs
 		for _, cu := range c.Cues {
 			if cu.E > maxEnd {
@@ -195,7 +195,7 @@ func cliCases(t *testing.T, pid, sub string) {
 			}
 		}
 		if rapid.IntRange(0, 2).Draw(rt, "defs") == 0 {
-			c.Defs, c.Ext = true, "ttml"
+			c.Defs, c.Ext = true, rapid.SampledFrom([]string{"ttml", "TTML", "Ttml"}).Draw(rt, "defsext")
 		}
 		if sub == "fragment" || sub == "unfragment" {
 			// precondition of both operations in their properties: start-ordered lists for fragment; any for unfragment
